@@ -545,6 +545,8 @@ def oracle(c, o):
                 return "the returned initial guess is not the guess that was supplied / used"
         elif "rerun" in r and (r["rerun"] != r["model"] or r["rerun_fit"] != r["fit"]):
             return "the returned initial guess, supplied again as an explicit start, does not reproduce the run"
+        if r.get("rec") and r["rec"][0]["U"] != r["init"]["factors"]:
+            return "the returned initial guess is not the one actually used: the first mttkrp call received different factor matrices"
         # normal equations of the mode updated last
         n = dims[-1]
         P = U9.mttkrp(shape, X, Us, n, R)
